@@ -828,7 +828,7 @@ end
 theorem merge_reverse_empty {S : Schema} {o : MergeOpts} {A D : List DNode} (hD : exactDiff S A D = true)
     (hstd : stdL D = true) : ∃ R, reverse S D = .ok R ∧ mergeDiff o S D R = .ok [] := by
   obtain ⟨R, hR, _, hm⟩ := listCan (S := S) (o := o) D none A false (Or.inl rfl) hD hstd
-  refine ⟨R, hR, ?_⟩
+  refine ⟨R, reverse_of_noUO (noUO_of_exactDiff hD) hR, ?_⟩
   have := hm [] (by simp)
   simpa [mergeDiff] using this
 
